@@ -54,9 +54,25 @@ MOL_STRINGS = [
 
 
 def _shape(rng):
-    kind = rng.choice(["chain", "star", "ring", "fused", "tree", "tree", "single_bond", "ladder"])
+    kind = rng.choice(["chain", "star", "ring", "fused", "tree", "tree", "single_bond", "ladder", "nonplanar"])
     edges = []
-    if kind == "single_bond":
+    if kind == "nonplanar":
+        # elastic networks and cage-like beads: connected graphs that cannot be drawn without crossings
+        sub = rng.choice(["complete", "bipartite", "petersen", "dense"])
+        if sub == "complete":
+            n = rng.randint(5, 8)
+            edges = [(i, j) for i in range(n) for j in range(i + 1, n)]
+        elif sub == "bipartite":
+            a, b = rng.choice([(3, 3), (3, 4), (4, 4)])
+            n = a + b
+            edges = [(i, a + j) for i in range(a) for j in range(b)]
+        elif sub == "petersen":
+            n = 10
+            edges = [(i, (i + 1) % 5) for i in range(5)] + [(i, i + 5) for i in range(5)] + [(5 + i, 5 + (i + 2) % 5) for i in range(5)]
+        else:
+            n = rng.randint(6, 14)
+            edges = [(rng.randrange(i), i) for i in range(1, n)] + [(i, j) for i in range(n) for j in range(i + 1, n) if rng.random() < 0.45]
+    elif kind == "single_bond":
         n = 2
         edges = [(0, 1)]
     elif kind == "chain":
@@ -133,7 +149,7 @@ def generate(run_seed, prop, tier="quick"):
             ops.append({"op": "layout", "g": rng.randrange(len(sources)), "bond": rng.choice([1, 1, 0.35, 2.5, 1.54, 10.0, 0.01, 1e-4, 750.0, 3, 1.5e-10, 1e-8, 1e6,
                                                            {"np": "float32", "v": 1.5}, {"np": "float16", "v": 0.35}, {"np": "float32", "v": 0.1}, {"np": "int64", "v": 2}]),
                         "np_seed": rng.randrange(2 ** 32) if rng.random() < 0.65 else None,
-                        "relabel": rng.choice(["none", "none", "shuffle", "strings", "offset"]),
+                        "relabel": rng.choice(["none", "none", "shuffle", "strings", "offset", "mixed"]),
                         "relabel_seed": rng.randrange(2 ** 30),
                         "align": rng.choice([None, None, [1.0, 0.0], [0.0, 1.0], [1.0, 1.0]]),
                         # the kind of graph object handed in: a plain graph, a frozen one, a read-only view
@@ -150,7 +166,7 @@ def generate(run_seed, prop, tier="quick"):
             ops.append({"op": "mutate_graph", "g": rng.randrange(len(sources)), "how": rng.choice(["rewire", "rewire", "relabel_inplace"]), "seed": rng.randrange(2 ** 30)})
         else:
             ops.append({"op": "relabel_pair", "g": rng.randrange(len(sources)), "bond": rng.choice([1, 0.35, 2.5]), "np_seed": rng.randrange(2 ** 32),
-                        "relabel": rng.choice(["shuffle", "strings", "offset"]), "relabel_seed": rng.randrange(2 ** 30)})
+                        "relabel": rng.choice(["shuffle", "strings", "offset", "mixed"]), "relabel_seed": rng.randrange(2 ** 30)})
     if rng.random() < 0.2:
         # the caller keeps the bond length in ONE mutable numpy object and passes it to every layout call
         shared = rng.choice([1.5, 0.35, 2.0])
@@ -171,7 +187,9 @@ def generate(run_seed, prop, tier="quick"):
                     "relabel": "none", "relabel_seed": 0, "align": None})
     # the logging configuration of the process is part of the environment
     return {"family": "layout", "prop": prop, "run_seed": run_seed, "sources": sources, "ops": ops,
-            "debug_logging": env_debug_logging(run_seed)}
+            "debug_logging": env_debug_logging(run_seed),
+            # numpy's floating-point error handling and the warning filter are process-wide settings too
+            "np_errstate_raise": H("env-np-errstate", run_seed) % 8 == 0, "warnings_as_errors": H("env-warnings", run_seed) % 8 == 0}
 
 
 def _relabel(graph, how, seed):
@@ -188,6 +206,11 @@ def _relabel(graph, how, seed):
         mapping = dict(zip(nodes, keys))
     elif how == "offset":
         mapping = {n: 5 * k + 11 for k, n in enumerate(nodes)}
+    elif how == "mixed":
+        # labels of several types in one graph: no total order among them
+        kinds = [lambda k: 2 * k, lambda k: "n%03d" % k, lambda k: (k, "x"), lambda k: frozenset((k, k + 1000))]
+        picks = [rng.randrange(4) for _ in nodes]
+        mapping = {n: kinds[picks[k]](k) for k, n in enumerate(nodes)}
     else:
         names = ["n%03d" % k for k in range(len(nodes))]
         rng.shuffle(names)
@@ -285,6 +308,13 @@ def run_history(scenario):
         stats["nodes"] = stats.get("nodes", 0) + len(g)
         stats["has_ez"] = stats.get("has_ez", 0) + int(any("ez_isomer" in g.nodes[n] for n in g.nodes))
 
+    if sc.get("np_errstate_raise"):
+        np.seterr(all="raise")
+        stats["env:numpy-errors-raise"] = 1
+    if sc.get("warnings_as_errors"):
+        import warnings
+        warnings.simplefilter("error")
+        stats["env:warnings-as-errors"] = 1
     shared_objects = {}
 
     def bond_value(value):
